@@ -97,11 +97,6 @@ func (self *Analyzer) expression(node pAst.Expression) ast.AnalyzedExpression {
 
 	self.currentModule.CreateErrorIfContainsAny = errOnAnyPrev
 
-	// if this is a `never` expression, count it like a loop termination
-	if res.Type().Kind() == ast.NeverTypeKind {
-		self.currentModule.CurrentLoopIsTerminated = true
-	}
-
 	// check for `any` parts in the type
 	// types like `fn() -> any` are allowed, just not `(fn() -> any)()`, meaning `any`
 	if self.currentModule.CreateErrorIfContainsAny && self.CheckAny(res.Type()) {
